@@ -310,24 +310,25 @@ def encodeNode (nw : NodeWriter) (n : WNode) : Except Err Bytes :=
   let checksum := checksum ^^^ (checksum >>> 16)
   .ok ([0x72, 0xC3, 0x63, UInt8.ofNat arity, checksum.toUInt8, (checksum >>> 8).toUInt8] ++ body)
 
+/-- the part of `writeIndex` that encodes one node and hands it to `w.w.Write` -/
+def writeNode (nw : NodeWriter) (n : WNode) (io : IOSt) : IOSt × Option Err :=
+  match encodeNode nw n with
+  | .error e => (io, some e)
+  | .ok bytes =>
+    let (io, ok) := io.write false bytes
+    if ok then (io, none) else (io, some .fault)
+
 mutual
 /-- `(*nodeWriter).writeIndex`: one `Write` call per branch node; children before
 the node iff `rootAndIsAtEnd`. -/
 def writeIndex (nw : NodeWriter) : WNode → Bool → IOSt → IOSt × Option Err
   | .mk d cs rs col s t c, rootAndIsAtEnd, io =>
-    let n := WNode.mk d cs rs col s t c
-    let writeSelf (io : IOSt) : IOSt × Option Err :=
-      match encodeNode nw n with
-      | .error e => (io, some e)
-      | .ok bytes =>
-        let (io, ok) := io.write false bytes
-        if ok then (io, none) else (io, some .fault)
     if rootAndIsAtEnd then
       match writeIndexList nw cs io with
       | (io, some e) => (io, some e)
-      | (io, none) => writeSelf io
+      | (io, none) => writeNode nw (.mk d cs rs col s t c) io
     else
-      match writeSelf io with
+      match writeNode nw (.mk d cs rs col s t c) io with
       | (io, some e) => (io, some e)
       | (io, none) => writeIndexList nw cs io
 /-- `for i, o := range n.children { if len(o.children) != 0 { writeIndex(&n.children[i], false) } }` -/
@@ -434,6 +435,13 @@ def write (w : CW) (data : Bytes) : CW × Option Err :=
 /-- `indexLocationAtEndMagic` -/
 def indexLocationAtEndMagic : Bytes := [0x72, 0xC3, 0x63, 0x00]
 
+/-- `s.Seek(…)` on a TempFile that is an `io.Seeker` (no-op otherwise) -/
+def seekTemp (w : CW) : CW × Option Err :=
+  if w.tempKind == 2 then
+    let (io, ok) := w.io.tick
+    if ok then ({ w with io := io }, none) else ({ w with io := io, err := some .fault }, some .fault)
+  else (w, none)
+
 /-- `initialize` -/
 def init (w : CW) : CW × Option Err :=
   match w.err with
@@ -444,11 +452,7 @@ def init (w : CW) : CW × Option Err :=
   let (w, e) := w.checkParameters
   if e.isSome then (w, e) else
   -- `if s, ok := w.TempFile.(io.Seeker); ok { s.Seek(0, io.SeekCurrent) }`
-  let (w, e) : CW × Option Err :=
-    if w.tempKind == 2 then
-      let (io, ok) := w.io.tick
-      if ok then ({ w with io := io }, none) else ({ w with io := io, err := some .fault }, some .fault)
-    else (w, none)
+  let (w, e) := w.seekTemp
   if e.isSome then (w, e) else
   if !w.indexAtStart then
     if w.tempKind != 0 then w.fail .ilaEndTempFile
@@ -525,6 +529,46 @@ def copyLoop : Nat → Bytes → Nat → IOSt → IOSt × Nat × Option Err
     if !ok then (io, n, some .fault) else
     copyLoop fuel (rest.drop copyBlock) (n + blk.length) io
 
+/-- `Close`, `IndexLocationAtEnd` part: padding, then the index -/
+def closeAtEnd (w : CW) (nw : NodeWriter) (rootNode : WNode) : CW × Option Err :=
+  -- Write the align-to-CPageSize padding.
+  let (w, e) := if w.cPageSize > 0 then w.padToPageSize false w.dataSize else (w, none)
+  if e.isSome then (w, e) else
+  -- Write the index. The compressed data has already been written.
+  match writeIndex nw rootNode true w.io with
+  | (io, some e) => ({ w with io := io, err := some e }, some e)
+  | (io, none) => ({ w with io := io, err := some .alreadyClosed }, none)
+
+/-- `Close`, `IndexLocationAtStart` part: the index, padding, then the TempFile's content -/
+def closeAtStart (w : CW) (nw : NodeWriter) (rootNode : WNode) (indexSize : Nat) : CW × Option Err :=
+  let expectedTempFileSize := w.dataSize
+  -- Write the index.
+  match writeIndex nw rootNode false w.io with
+  | (io, some e) => ({ w with io := io, err := some e }, some e)
+  | (io, none) =>
+  let w := { w with io := io }
+  -- Write the align-to-CPageSize padding.
+  let (w, e) := if w.cPageSize > 0 then w.padToPageSize false indexSize else (w, none)
+  if e.isSome then (w, e) else
+  -- Write the compressed data.
+  let (w, e) := w.seekTemp           -- s.Seek(w.tempFileSeekStart, io.SeekStart)
+  if e.isSome then (w, e) else
+  let t := w.io.tBytes
+  match copyLoop (t.length + 2) t 0 w.io with
+  | (io, _, some e) => ({ w with io := io, err := some e }, some e)
+  | (io, n, none) =>
+    if n != expectedTempFileSize then { w with io := io }.fail .inconsistentCompressedSize
+    else ({ w with io := io, err := some .alreadyClosed }, none)
+
+/-- the `nodeWriter` that `Close` sets up -/
+def mkNodeWriter (w : CW) (indexSize : Nat) : NodeWriter :=
+  if !w.indexAtStart then
+    let ico := w.roundUpToCPageBoundary w.dataSize
+    { resourcesCOffCLens := w.resourcesCOffCLens, indexCOffset := ico, cFileSize := ico + indexSize }
+  else
+    let dco := w.roundUpToCPageBoundary indexSize
+    { resourcesCOffCLens := w.resourcesCOffCLens, dataCOffset := dco, cFileSize := dco + w.dataSize }
+
 /-- `Close` -/
 def close (w : CW) : CW × Option Err :=
   match w.err with
@@ -538,46 +582,10 @@ def close (w : CW) : CW × Option Err :=
   else
   let rootNode := gather w.leafNodes.toList (codecIsLong w.codec)
   let (rootNode, indexSize) := rootNode.calcEncodedSize 0 (!w.indexAtStart)
-  let nw : NodeWriter := { resourcesCOffCLens := w.resourcesCOffCLens }
-  let nw : NodeWriter :=
-    if !w.indexAtStart then
-      let ico := w.roundUpToCPageBoundary w.dataSize
-      { nw with indexCOffset := ico, cFileSize := ico + indexSize }
-    else
-      let dco := w.roundUpToCPageBoundary indexSize
-      { nw with dataCOffset := dco, cFileSize := dco + w.dataSize }
+  let nw := w.mkNodeWriter indexSize
   if nw.cFileSize > maxSize then w.fail .tooMuchInput else
-  if !w.indexAtStart then
-    -- Write the align-to-CPageSize padding.
-    let (w, e) := if w.cPageSize > 0 then w.padToPageSize false w.dataSize else (w, none)
-    if e.isSome then (w, e) else
-    -- Write the index.
-    match writeIndex nw rootNode true w.io with
-    | (io, some e) => ({ w with io := io, err := some e }, some e)
-    | (io, none) => ({ w with io := io, err := some .alreadyClosed }, none)
-  else
-    let expectedTempFileSize := w.dataSize
-    -- Write the index.
-    match writeIndex nw rootNode false w.io with
-    | (io, some e) => ({ w with io := io, err := some e }, some e)
-    | (io, none) =>
-    let w := { w with io := io }
-    -- Write the align-to-CPageSize padding.
-    let (w, e) := if w.cPageSize > 0 then w.padToPageSize false indexSize else (w, none)
-    if e.isSome then (w, e) else
-    -- Write the compressed data.
-    let (w, e) : CW × Option Err :=
-      if w.tempKind == 2 then
-        let (io, ok) := w.io.tick           -- s.Seek(w.tempFileSeekStart, io.SeekStart)
-        if ok then ({ w with io := io }, none) else ({ w with io := io, err := some .fault }, some .fault)
-      else (w, none)
-    if e.isSome then (w, e) else
-    let t := w.io.tBytes
-    match copyLoop (t.length + 2) t 0 w.io with
-    | (io, _, some e) => ({ w with io := io, err := some e }, some e)
-    | (io, n, none) =>
-      if n != expectedTempFileSize then { w with io := io }.fail .inconsistentCompressedSize
-      else ({ w with io := io, err := some .alreadyClosed }, none)
+  if !w.indexAtStart then w.closeAtEnd nw rootNode
+  else w.closeAtStart nw rootNode indexSize
 
 end CW
 end WuffsVerif.Rac
